@@ -38,9 +38,9 @@ func zzEnvelope(shape int, id uint64) *Rpc {
 		return &Rpc{Id: id, Header: h, Body: zzBody(3)}
 	case 7:
 		return &Rpc{Id: id, Header: hdr("BidiStream")}
-	case 8:
+	case 8: // a stream open whose metadata cannot be decoded, with a valid timeout beside it
 		h := hdr("BidiStream")
-		h.Headers = []*goatorepo.KeyValue{{Key: "x-bin", Value: "!!not base64!!"}}
+		h.Headers = []*goatorepo.KeyValue{{Key: "grpc-timeout", Value: "2S"}, {Key: "x-bin", Value: "!!not base64!!"}}
 		return &Rpc{Id: id, Header: h}
 	case 9:
 		return &Rpc{Id: id, Header: hdr("BidiStream"), Body: zzBody(4)}
@@ -178,7 +178,18 @@ func H_C12_seq() {
 		vfAssert(strReturned == strStarted, "stream-handlers-finish")
 		resets := 0
 		probeOK := false
+		foreign := false // an envelope addressed to another name was among the requests
+		for i := 0; i < L; i++ {
+			if shapes[i] == 4 || shapes[i] == 13 {
+				foreign = true
+			}
+		}
 		for _, w := range conn.written() {
+			if w.Header != nil && !foreign {
+				// whatever the server answers - replies, error replies to malformed requests, resets -
+				// travels back to the requester under the server's own name (seeded change C06g)
+				vfAssert(w.Header.Source == "srv" && w.Header.Destination == "cli", "every-response-swaps-source-and-destination")
+			}
 			if w.Reset_ != nil {
 				resets++
 				vfAssert(w.Id == 1 || w.Id == 2, "reset-carries-the-offending-id")
